@@ -17,6 +17,13 @@ Theorem C05_frame_objects_partial : forall V (r : routine) (orc : leaf -> V) (h 
 Proof. exact apply_frame_obj. Qed.
 Print Assumptions C05_frame_objects_partial.
 
+(** an object sharing no storage with the object that holds the trained component and optimizer state is unchanged *)
+Theorem C05_disjoint_object_unchanged_partial : forall V (r : routine) (orc : leaf -> V) (h : heap V) (o ot : obj),
+  (forall l, In l (write_set r) -> In l (map snd ot)) -> shares o ot = false ->
+  read V (apply V r orc h) o = read V h o.
+Proof. exact disjoint_object_unchanged. Qed.
+Print Assumptions C05_disjoint_object_unchanged_partial.
+
 (** evaluating a loss / acting (empty write-set) changes nothing *)
 Theorem C05_evaluation_is_pure : forall V (r : routine) (orc : leaf -> V) (h : heap V),
   write_set r = [] -> forall l, apply V r orc h l = h l.
